@@ -194,9 +194,17 @@ def recheck(inp, outp, runs):
         if key in done:
             continue
         if rec["stage1"] == "survives-tests" and not rec.get("caught"):
-            orig = open(os.path.join(REPO, rec["file"])).read().split("\n")[rec["line"] - 1]
+            cur = open(os.path.join(REPO, rec["file"])).read().split("\n")
+            line = rec["line"]
+            if rec.get("orig") is not None and (line > len(cur) or cur[line - 1] != rec["orig"]):
+                # the file changed since the first pass (a fix: commit moved the line): find the line by its text
+                cands = [j + 1 for j, l in enumerate(cur) if l == rec["orig"]]
+                if not cands:
+                    continue
+                line = min(cands, key=lambda j: abs(j - rec["line"]))
+            orig = cur[line - 1]
             indent = orig[:len(orig) - len(orig.lstrip())]
-            scratch = make_tree(rec["file"], rec["line"], indent + rec["new"])
+            scratch = make_tree(rec["file"], line, indent + rec["new"])
             if scratch is not None:
                 try:
                     first = FILES[rec["file"]][0]
@@ -225,7 +233,8 @@ def main():
     survivors = []
     with ThreadPoolExecutor(max_workers=jobs) as ex:
         for c, scratch, status in ex.map(stage1, cands):
-            rec = {"file": c[0], "line": c[1], "kind": c[2], "new": c[3].strip(), "stage1": status}
+            rec = {"file": c[0], "line": c[1], "kind": c[2], "new": c[3].strip(), "stage1": status,
+                   "orig": open(os.path.join(REPO, c[0])).read().split("\n")[c[1] - 1]}
             if scratch:
                 survivors.append((rec, scratch))
             else:
